@@ -13,7 +13,7 @@ import os
 ATTR_NAMES = ["a", "b", "c", "x", "y", "data", "_priv", "name", "shape", "values", "k_1", "T", "class_name",
               "version", "level", "items", "w0", "obj", "cfg", "meta"]
 DICT_KEYS = ATTR_NAMES + ["0", "1", "10", "007", "a b", "k.v", "x-y", "with:colon", "_tensor_shape", "logger_name",
-                          "UPPER", "ünï", "50%", "c", "log_dir"]
+                          "UPPER", "ünï", "50%", "c", "log_dir", ".hidden", ".cache", "..x", "~tmp", "#1"]
 NP_DTYPES = ["bool", "int8", "int16", "int32", "int64", "uint8", "uint16", "uint32", "uint64",
              "float16", "float32", "float64"]
 ARR_DTYPES = ["bool", "int8", "int16", "int32", "int64", "uint8", "uint16", "uint32", "uint64", "float16", "float32",
@@ -280,6 +280,12 @@ def special_pool():
                                       ("f", ["dict", [["2", ["none"]]]]), ("g", ["dict", [["007", i(1)], ["10", ["list", [i(1), s("q")]]]]]),
                                       ("h", ["dict", [["0", i(1)], ["1", i(2)], ["2", i(3)]]]), ("k", ["dict", [["1", ["path", "p/q"]], ["0", f(0.5)]]]),
                                       ("l", ["list", [["dict", [["0", ["dict", [["0", s("deep")]]]]]]]]))))
+    # keys that look like hidden files / editor droppings once they become store members: array-, container-,
+    # object- and tensor-valued entries live in their own files, so these names reach the file system
+    P.append(("dotted-keys", root(("d", ["dict", [[".hidden", ["arr", "float32", [2], 4, "C"]], [".cache", ["list", [i(1), s("q")]]],
+                                                 ["..x", ["dict", [["~tmp", ["arr", "int8", [3], 1, "C"]]]]], ["#1", i(1)],
+                                                 [".child", ["obj", "NodeA", [["a", i(1)]]]]]]),
+                                  ("x", i(1)))))
     P.append(("loggers", root(("lg", ["logger", "c01.pool", 30]), ("l", ["list", [["logger", "c01.pool2", 10], i(1)]]), ("rl", ["rootlogger"]))))
     for bg in BITGENS:
         P.append(("rng-" + bg, root(("r", ["rng", bg, 3]), ("x", i(1)))))
